@@ -1,5 +1,28 @@
 /-
-  Property C09 — document-wide lookups always agree with the current tree.  (under construction)
+  Property C09 — document-wide lookups always agree with the current tree.
+
+  About the model OdfModel/DomDoc.lean (node heap of C08 + ownerDocument + element_dict / _styles_dict /
+  _styles_ooo_fix, the three mutators with their index maintenance as the code has it now).
+
+  What is proved
+  * `elems_spec`, `elems_nodup`: the three recursions (`_set_owner`, `rebuild_caches`, `remove_from_caches`)
+    visit exactly the element nodes at or below their argument, each once.
+  * `elByType_eq_filter`: the element-level query is the filter over the subtree in document order —
+    unconditionally.
+  * `CohIdx`: for every qname the index list has no repetition and holds exactly the attached elements of
+    that qname (`coh_perm`: a permutation of any duplicate-free enumeration), and ownerDocument is the
+    document exactly on the attached elements.  `coherent_step_partial` / `coherent_reachable_partial`:
+    preserved by EVERY operation (tree edits on attached and detached parents, whole subtrees, text nodes,
+    attribute calls, both document-level queries with their rebuild, `__replaceGenerator`), for histories
+    of any length from a fresh document.  Side conditions (`OpOk`): no node is inserted into itself or its
+    own descendant; the top node is not re-created or inserted; and the call did not raise RecursionError
+    (subtree deeper than the traversal budget — Python's recursion limit).
+  * `detached_never_listed`, `docByType_exact`, `text_node_remove_keeps_index`, `text_node_append_keeps_index`.
+  * the style dictionary: `CohStyles` is the full-strength statement; it is NOT an invariant of the code:
+    `finding_style_rename`, `finding_style_rename_breaks_CohStyles`, `finding_style_duplicate_name` are proved
+    counter-examples (known findings KF-C09-1/2).  That is why the step / reachability theorems carry
+    `_partial`: they cover the element index and ownerDocument, not name lookups (only
+    `styles_register_partial` is proved about those); name lookups are tied by correspondence and oracle.
 -/
 import OdfModel.DomDoc
 import OdfModel.Props.C08
@@ -1889,8 +1912,8 @@ theorem coherent_runD (ops : List DOp) : ∀ s, Good s → HistoryOk s ops → G
 
 /-- **C09 (any history)**: from a fresh document, after an edit history of ANY length, the element
     index lists exactly the attached elements, each once, under its qname, and ownerDocument is
-    set exactly on the attached elements.  (`_partial`: `__replaceGenerator` is covered by the
-    separate theorem `replaceGenerator_good`; the style dictionary by `styles_step_partial`.) -/
+    set exactly on the attached elements.  (`_partial`: the style dictionary is not covered — it is
+    not an invariant of the code, see `finding_style_rename`.) -/
 theorem coherent_reachable_partial (q : Nat) (ops : List DOp) (hh : HistoryOk (freshDoc q) ops) :
     Good (runD (freshDoc q) ops) :=
   coherent_runD ops _ (good_fresh q) hh
@@ -2075,5 +2098,23 @@ theorem styles_register_partial {s : DState} {x pp : Id} {n : Nat}
   unfold registerPure
   simp only [hn, hp, hq, if_true, hfree, Option.isSome_none, Bool.false_eq_true, if_false]
   refine ⟨by rw [key]; simp, fun m hm => by rw [key]; simp [hm]⟩
+
+/-- the hypotheses of `coherent_reachable_partial` are satisfiable: a P-like element 1 is created, added
+    under the top node, and queried -/
+example : HistoryOk (freshDoc 9) [.tree (.newNode 1 .elem 5), .tree (.append 0 1), .byType 5] := by
+  have hne : ∀ (x : Except Err Unit), x = .ok () → x ≠ .error .RecursionError := by
+    intro x hx h; rw [hx] at h; cases h
+  refine ⟨?_, hne _ rfl, ⟨?_, ?_⟩, hne _ rfl, trivial, hne _ rfl, trivial⟩
+  · show (1 : Nat) ≠ (freshDoc 9).top
+    decide
+  · intro ha
+    cases ha with
+    | step hp _ =>
+      have hnone : (((stepD (.tree (.newNode 1 .elem 5))).run (freshDoc 9)).1.heap 0).parent = none := by decide
+      rw [hnone] at hp; cases hp
+  · show (1 : Nat) ≠ ((stepD (.tree (.newNode 1 .elem 5))).run (freshDoc 9)).1.top
+    decide
+
+example : ed (runD (freshDoc 9) [.tree (.newNode 1 .elem 5), .tree (.append 0 1), .byType 5]) 5 = [1] := by decide
 
 end OdfModel.Props.C09
